@@ -128,6 +128,39 @@ class SymMap:
         return f"SymMap({self.universe})"
 
 
+class RecipSym:
+    """A positive real given as the formal reciprocal 1/mu of a positive symbol mu (used for the wavelength):
+    x / (1/mu) = x*mu and x * (1/mu) = x/mu are exact real-arithmetic identities (A1), and they keep `2*pi/wavelength`
+    polynomial, so statements can be phrased without dividing by a variable."""
+
+    _pyvc_value = True
+
+    def __init__(self, mu):
+        self.mu = mu  # Sym, assumed > 0 by the creator
+
+    @property
+    def t(self):
+        return z3.RealVal(1) / self.mu.t
+
+    def __rtruediv__(self, x):
+        return x * self.mu
+
+    def __truediv__(self, x):
+        if isinstance(x, RecipSym):
+            return x.mu / self.mu
+        return RecipSym(self.mu * x)
+
+    def __mul__(self, x):
+        if isinstance(x, RecipSym):
+            return RecipSym(self.mu * x.mu)
+        return x / self.mu
+
+    __rmul__ = __mul__
+
+    def __repr__(self):
+        return f"RecipSym(1/{self.mu.t})"
+
+
 def install(reg):
     M = reg.models
 
